@@ -42,6 +42,30 @@ pub fn search(rng: &mut Rng, budget: u64, fails: &mut Vec<Failure>) {
         }
         if fails.len() >= 5 { return; }
     }
+    // with(): supplied fields win, the rest come from the receiver; constrain clamps, reject refuses (C17)
+    for _ in 0..(budget / 100).max(40) {
+        let (y, m, d) = (rng.range(1, 9000) as i32, rng.range(1, 12) as u8, rng.range(1, 28) as u8);
+        let Ok(base) = PlainDate::try_new(y, m, d, Calendar::default()) else { continue };
+        let pm = if rng.next() % 2 == 0 { Some(rng.range(1, 20) as u8) } else { None };
+        let pdv = if rng.next() % 2 == 0 { Some(rng.range(1, 40) as u8) } else { None };
+        if pm.is_none() && pdv.is_none() { continue; }
+        let mut p = PartialDate::default(); p.month = pm; p.day = pdv;
+        let dim = |yy: i32, mm: u8| -> u8 { match mm { 2 => if crate::oracle::is_leap(yy as i64) { 29 } else { 28 }, 4 | 6 | 9 | 11 => 30, _ => 31 } };
+        for ov in [None, Some(ArithmeticOverflow::Constrain), Some(ArithmeticOverflow::Reject)] {
+            let (wm, wd) = (pm.unwrap_or(m), pdv.unwrap_or(d));
+            let reject = matches!(ov, Some(ArithmeticOverflow::Reject));
+            let want = if reject { if wm <= 12 && wd <= dim(y, wm) { Some((wm, wd)) } else { None } } else { let cm = wm.min(12); Some((cm, wd.min(dim(y, cm)))) };
+            let input = format!("PlainDate({y}-{m}-{d}).with(month={pm:?}, day={pdv:?}, overflow={ov:?})");
+            let pc = p.clone();
+            match catch_unwind(std::panic::AssertUnwindSafe(|| base.with(pc, ov))) {
+                Ok(Ok(r)) => match want { Some((em, ed)) => if (r.iso_year(), r.iso_month(), r.iso_day()) != (y, em, ed) { fails.push(Failure { what: "PlainDate::with".into(), input, expected: format!("{y}-{em}-{ed}"), observed: format!("{}-{}-{}", r.iso_year(), r.iso_month(), r.iso_day()) }) },
+                    None => fails.push(Failure { what: "PlainDate::with accepted out-of-range fields under reject".into(), input, expected: "RangeError".into(), observed: format!("{}-{}-{}", r.iso_year(), r.iso_month(), r.iso_day()) }) },
+                Ok(Err(_)) => if let Some((em, ed)) = want { fails.push(Failure { what: "PlainDate::with refused fields it must constrain or accept".into(), input, expected: format!("{y}-{em}-{ed}"), observed: "Err".into() }) },
+                Err(_) => fails.push(Failure { what: "PlainDate::with panicked".into(), input, expected: "value or error".into(), observed: "panic".into() }),
+            }
+        }
+        if fails.len() >= 5 { return; }
+    }
     // February 29 month-day
     match catch_unwind(|| PlainMonthDay::new_with_overflow(2, 29, Calendar::default(), ArithmeticOverflow::Reject, None)) {
         Ok(Ok(_)) => {}
